@@ -195,7 +195,15 @@ func execOp(c *opCtx, op *C11Op) (result string) {
 	defer verifsim.EndOp()
 	var b strings.Builder
 	defer func() {
-		if r := recover(); r != nil {
+		r := recover()
+		if verifsim.TakeAborted() {
+			// an injected abort fired somewhere in this operation; whether the
+			// panic arrived here or was swallowed on the way (fmt recovers panics
+			// of String/Error methods), the operation has no result
+			result = abortedResult
+			return
+		}
+		if r != nil {
 			if _, ok := r.(verifsim.Abort); ok {
 				result = abortedResult
 				return
